@@ -242,14 +242,55 @@ type constKey struct {
 
 // Facts holds per-program interning tables and per-function memoised dataflow results.
 type Facts struct {
-	ids    map[Fact]int
-	byID   []Fact
-	consts map[constKey]*ssa.Const
-	states map[*ssa.Function]map[*ssa.BasicBlock]DNF
-	Cap    int
+	ids       map[Fact]int
+	byID      []Fact
+	consts    map[constKey]*ssa.Const
+	states    map[*ssa.Function]map[*ssa.BasicBlock]DNF
+	Cap       int
+	lens      map[lenKey]ssa.Value
+	storeMemo map[string]bool
 	// statistics
 	Overflow int
 	Analysed int
+}
+
+type lenKey struct {
+	root ssa.Value
+	path string
+}
+
+// storesField: fn (or a closure in it) stores to a field whose name is the last element of path
+func (fa *Facts) storesField(fn *ssa.Function, path string) bool {
+	name := path
+	if i := strings.LastIndex(path, "."); i >= 0 {
+		name = path[i+1:]
+	}
+	key := fn.String() + "|" + name
+	if r, ok := fa.storeMemo[key]; ok {
+		return r
+	}
+	found := false
+	var scan func(f *ssa.Function)
+	scan = func(f *ssa.Function) {
+		for _, b := range f.Blocks {
+			for _, in := range b.Instrs {
+				if st, ok := in.(*ssa.Store); ok {
+					if fad, ok := st.Addr.(*ssa.FieldAddr); ok && fieldName(fad.X.Type(), fad.Field) == name {
+						found = true
+					}
+				}
+			}
+		}
+		for _, a := range f.AnonFuncs {
+			scan(a)
+		}
+	}
+	scan(fn)
+	if fa.storeMemo == nil {
+		fa.storeMemo = map[string]bool{}
+	}
+	fa.storeMemo[key] = found
+	return found
 }
 
 func NewFacts() *Facts {
@@ -260,6 +301,25 @@ func NewFacts() *Facts {
 func (fa *Facts) Canon(v ssa.Value) ssa.Value {
 	for {
 		switch x := v.(type) {
+		case *ssa.Call:
+			// len(<field path of a parameter / receiver>) read several times in a function that never stores to
+			// that field is one quantity: go/ssa has no common-subexpression elimination, so `len(c.List) < 1`
+			// tested twice would otherwise be two unrelated facts
+			if b, ok := x.Call.Value.(*ssa.Builtin); ok && b.Name() == "len" && len(x.Call.Args) == 1 {
+				if root, path, ok := FieldPath(Unwrap(x.Call.Args[0])); ok {
+					if _, isParam := root.(*ssa.Parameter); isParam && !fa.storesField(x.Parent(), path) {
+						key := lenKey{root, path}
+						if rep, seen := fa.lens[key]; seen {
+							return rep
+						}
+						if fa.lens == nil {
+							fa.lens = map[lenKey]ssa.Value{}
+						}
+						fa.lens[key] = x
+					}
+				}
+			}
+			return v
 		case *ssa.ChangeType:
 			v = x.X
 			continue
